@@ -15,8 +15,18 @@
 //!                     reflected (the single step in flight may or may not be), then keeps using the
 //!                     recovered store under the model.
 //!
+//!  * `rocks-concurrent-ids` – several threads register new names of their own agents at the same
+//!                     time, over many open/close sessions of one directory (concurrent.rs); every
+//!                     case runs in a child process (`store --concurrent-case <dir> <seed> <tier>`),
+//!                     `--concurrent-in-process 1` keeps the cases in this process.
+//!
+//! A share of the `rocks-reopen` histories are *stride histories*: live items whose identifiers are
+//! an exact multiple of 256 apart (filler names registered in between), many `clear_map`s, every
+//! item read after each clear.
+//!
 //! `--only <part>[,<part>]` restricts the run to some parts (used for the valgrind pass).
 
+mod concurrent;
 mod runner;
 mod script;
 
@@ -28,7 +38,7 @@ use std::time::{Duration, Instant};
 
 use common::{json, CaseOut, Fnv, Json, Rng, Session};
 use runner::{Backend, Runner};
-use script::{expand, gen_ops, gen_script, GenParams, Model, Op, Spec, Step};
+use script::{expand, gen_ops, gen_script, gen_script_stride, GenParams, Model, Op, Spec, Step};
 use swimos_api::error::StoreError;
 use swimos_api::persistence::ServerPersistence;
 use swimos_rocks_store::{default_db_opts, open_rocks_store};
@@ -107,13 +117,19 @@ impl Drop for Scratch {
 // ------------------------------------------------------------------------------------------------
 // Generation parameters of the parts
 
-const MEM: GenParams = GenParams { equal_concat_pct: 12, min_ops: 30, max_ops: 140, reopen_weight: 0, handover: true, big_value_pct: 0 };
-const REOPEN: GenParams = GenParams { equal_concat_pct: 12, min_ops: 25, max_ops: 110, reopen_weight: 0, handover: false, big_value_pct: 0 };
-const REOPEN_EVERY: GenParams = GenParams { equal_concat_pct: 12, min_ops: 15, max_ops: 45, reopen_weight: 0, handover: false, big_value_pct: 0 };
+const BASE: GenParams = GenParams { equal_concat_pct: 12, min_ops: 30, max_ops: 140, reopen_weight: 0, handover: false, big_value_pct: 0, clear_extra: 0, audit_after_clear: false };
+const MEM: GenParams = GenParams { handover: true, ..BASE };
+const REOPEN: GenParams = GenParams { min_ops: 25, max_ops: 110, ..BASE };
+const REOPEN_EVERY: GenParams = GenParams { min_ops: 15, max_ops: 45, ..BASE };
+/// Stride histories (`gen_script_stride`): items whose identifiers are a multiple of 256 apart, all
+/// holding data, many clears, everything read after each clear. No deliberate equal-concatenation
+/// pair: the two names of such a pair share one identifier, which would shift the arrangement.
+const STRIDE: GenParams = GenParams { equal_concat_pct: 0, min_ops: 20, max_ops: 70, clear_extra: 4, audit_after_clear: true, ..BASE };
+const STRIDE_EVERY: GenParams = GenParams { min_ops: 8, max_ops: 25, ..STRIDE };
 /// The writer child: no deliberate equal-concatenation pair (that defect would hide crash defects),
 /// some database reopens inside the child, some large values (long-running writes).
-const KILL: GenParams = GenParams { equal_concat_pct: 0, min_ops: 30, max_ops: 120, reopen_weight: 3, handover: false, big_value_pct: 6 };
-const AFTER_KILL: GenParams = GenParams { equal_concat_pct: 0, min_ops: 15, max_ops: 40, reopen_weight: 2, handover: false, big_value_pct: 0 };
+const KILL: GenParams = GenParams { equal_concat_pct: 0, min_ops: 30, max_ops: 120, reopen_weight: 3, big_value_pct: 6, ..BASE };
+const AFTER_KILL: GenParams = GenParams { equal_concat_pct: 0, min_ops: 15, max_ops: 40, reopen_weight: 2, ..BASE };
 
 fn fold_steps(out: &mut CaseOut, spec: &Spec, steps: &[Step]) {
     let mut h = Fnv::default();
@@ -125,6 +141,7 @@ fn fold_steps(out: &mut CaseOut, spec: &Spec, steps: &[Step]) {
             Step::Put(_, _, v) => (v.len(), &v[..v.len().min(4)]).hash(&mut h),
             Step::Upd(_, _, k, v) => (k, v.len(), &v[..v.len().min(4)]).hash(&mut h),
             Step::Rem(_, _, k) => k.hash(&mut h),
+            Step::Burn(n) => n.hash(&mut h),
             _ => {}
         }
     }
@@ -204,13 +221,27 @@ fn case_mem(case: u64, rng: &mut Rng, out: &mut CaseOut) {
 
 fn case_rocks_reopen(case: u64, rng: &mut Rng, out: &mut CaseOut, thorough: bool) {
     let every = thorough && case % 2 == 0;
-    let sc = gen_script(rng.next_u64(), if every { &REOPEN_EVERY } else { &REOPEN });
+    // Three histories in eight are stride histories (in the thorough tier one of the three also
+    // reopens after every operation).
+    let stride = case % 4 == 1 || case % 8 == 2;
+    let sc = match (stride, every) {
+        (false, false) => gen_script(rng.next_u64(), &REOPEN),
+        (false, true) => gen_script(rng.next_u64(), &REOPEN_EVERY),
+        (true, false) => gen_script_stride(rng.next_u64(), &STRIDE),
+        (true, true) => gen_script_stride(rng.next_u64(), &STRIDE_EVERY),
+    };
+    if stride {
+        out.count("stride_histories");
+    }
     // Insert the reopen points into the generated history.
     let mut ops: Vec<Op> = Vec::new();
     if every {
-        for op in sc.ops.iter() {
+        // (Inside the scene-setting prologue of a stride history: after every fifth operation.)
+        for (k, op) in sc.ops.iter().enumerate() {
             ops.push(op.clone());
-            ops.push(Op::Reopen);
+            if k >= sc.prologue || k % 5 == 4 {
+                ops.push(Op::Reopen);
+            }
         }
         out.count("histories_with_reopen_after_every_operation");
     } else {
@@ -253,6 +284,77 @@ fn case_rocks_reopen(case: u64, rng: &mut Rng, out: &mut CaseOut, thorough: bool
         out.set_sample(sample_of(&sc.spec, &steps, &sc.keys));
     }
     report(&mut r, out, "");
+}
+
+// ------------------------------------------------------------------------------------------------
+// Part: RocksDB, names registered concurrently, across reopen (see concurrent.rs)
+
+/// Everything about a case is derived from `seed`, in the parent and in the child alike.
+fn concurrent_case(dir: PathBuf, seed: u64, thorough: bool) -> concurrent::CaseResult {
+    let mut rng = Rng::new(seed);
+    let n_sessions = if thorough { rng.range(12, 24) } else { rng.range(8, 14) } as usize;
+    let plan = concurrent::gen_plan(&mut rng, n_sessions);
+    concurrent::run_case(move || open_rocks_store(Some(dir.clone()), default_db_opts()), &plan)
+}
+
+/// `store --concurrent-case <dir> <seed> <quick|thorough>`: run one case, print the result as one
+/// line of JSON. Cases run in child processes because opening and closing RocksDB databases does
+/// not scale over the threads of one process (about 110 open/close cycles per second in total,
+/// whatever the number of threads; separate processes do scale).
+fn concurrent_child_main(dir: &str, seed: &str, tier: &str) -> ! {
+    let seed: u64 = seed.parse().unwrap_or_else(|_| std::process::exit(2));
+    let res = concurrent_case(PathBuf::from(dir), seed, tier == "thorough");
+    let line = format!("r {}\n", res.to_json());
+    let mut o = std::io::stdout().lock();
+    let _ = o.write_all(line.as_bytes());
+    let _ = o.flush();
+    std::process::exit(0)
+}
+
+fn case_rocks_concurrent(case: u64, rng: &mut Rng, out: &mut CaseOut, thorough: bool, in_process: bool) {
+    let seed = rng.next_u64();
+    let scratch = Scratch::new("conc", case);
+    if in_process {
+        return concurrent_case(scratch.0.clone(), seed, thorough).report(case, out);
+    }
+    let exe = match std::env::current_exe() {
+        Ok(e) => e,
+        Err(e) => return out.inconclusive(format!("current_exe: {e}")),
+    };
+    let child = Command::new(exe)
+        .arg("--concurrent-case")
+        .arg(&scratch.0)
+        .arg(seed.to_string())
+        .arg(if thorough { "thorough" } else { "quick" })
+        .stdin(Stdio::null())
+        .stdout(Stdio::piped())
+        .stderr(Stdio::piped())
+        .output();
+    let output = match child {
+        Ok(o) => o,
+        Err(e) => return out.inconclusive(format!("cannot run the child process of the case: {}", e.kind())),
+    };
+    let stdout = String::from_utf8_lossy(&output.stdout);
+    let result = stdout
+        .lines()
+        .find_map(|l| l.strip_prefix("r "))
+        .and_then(|l| serde_json::from_str::<Json>(l).ok())
+        .and_then(|j| concurrent::CaseResult::from_json(&j));
+    match result {
+        Some(res) => res.report(case, out),
+        None => {
+            // No result: the child died (a panic or an abort inside the store).
+            let stderr_text = String::from_utf8_lossy(&output.stderr);
+            let first = stderr_text.lines().find(|l| !l.trim().is_empty()).unwrap_or("").to_string();
+            out.violation(
+                P,
+                format!("concurrent-child-died/{}", common::sanitize_sig(&first)),
+                format!("the process running the case terminated without a result ({})", output.status),
+                json!({"stderr": stderr_text.chars().take(2000).collect::<String>(), "case_seed": seed}),
+            );
+            out.nontrivial = true;
+        }
+    }
 }
 
 // ------------------------------------------------------------------------------------------------
@@ -597,6 +699,13 @@ fn main() {
         }
         writer_main(&argv[2], &argv[3]);
     }
+    if argv.get(1).map(String::as_str) == Some("--concurrent-case") {
+        if argv.len() != 5 {
+            eprintln!("usage: store --concurrent-case <dir> <seed> <quick|thorough>");
+            std::process::exit(2);
+        }
+        concurrent_child_main(&argv[2], &argv[3], &argv[4]);
+    }
 
     let mut s = Session::new("store");
     let only: Option<Vec<String>> = s.args.extra.get("only").map(|o| o.split(',').map(str::to_string).collect());
@@ -622,6 +731,24 @@ fn main() {
             n,
             |c, rng, out| case_rocks_reopen(c, rng, out, thorough),
         );
+    }
+    if want("rocks-concurrent-ids") {
+        // `--concurrent-in-process 1`: run the cases inside this process (debugger, sanitizers).
+        let in_process = s.args.extra_u64("concurrent-in-process").unwrap_or(0) != 0;
+        let n = s.args.budget(160, 2_500);
+        // Fewer cases at a time than cores: every case runs up to 8 threads of its own, and the
+        // races this part is after are tightest when those threads really run in parallel
+        // (measured: most collisions per second of a seeded allocator defect at ~3/8 of the cores).
+        let all_threads = s.args.threads;
+        s.args.threads = ((all_threads * 3 + 7) / 8).max(1);
+        s.part(
+            "rocks-concurrent-ids",
+            "one scratch directory per case (run in a child process) used over 8-14 (thorough 12-24) sessions of open_rocks_store; a session verifies identifier and content of every name registered so far, registers 0-2 new names sequentially, then 2-8 OS threads released through a spin gate register new names for agents of their own (3 sessions in 4: the same number 1-6 of names per thread, back to back; else 1-3 names for 1-2 agents, seeded delays, some threads re-ask an old name), writing a unique content through each identifier, and closes the database; all identifiers ever handed out must be pairwise distinct (equal ones are probed for shared storage), unchanged after every reopen, every item must hold exactly its own content; non-trivial when all sessions completed, at least one session had id_for calls of different threads overlapping in time and names were verified after a reopen; distinct by hash of the plan and of the observed thread order of the identifiers (the interleaving itself is not reproducible)",
+            false,
+            n,
+            |c, rng, out| case_rocks_concurrent(c, rng, out, thorough, in_process),
+        );
+        s.args.threads = all_threads;
     }
     if want("rocks-kill") {
         let n = s.args.budget(64, 1_200);
